@@ -50,3 +50,41 @@ Print Assumptions local_index_refines_spec.
 Theorem value_has_layout_length : forall c p vs, Valid p c -> to_list c = Ok vs -> zlen vs = clen c.
 Proof. exact to_list_length. Qed.
 Print Assumptions value_has_layout_length.
+
+(* ---- refinement of flatten: the layout-level model (C++ offsets_and_flattened, inner offsets handed upwards)
+        computes exactly the value-level specification, every axis (positive, negative, negative through records of
+        mixed depth), values and error status.  _partial: [noempty c] (no EmptyArray node) is needed -- the
+        specification refuses the unknown type at the flattened level, the model (and the C++) accept it:
+        Proofs_Flatten.flatten_refines_spec_empty_refuted, _refuted2 ---- *)
+From AwkV Require Import Proofs_FlattenA Proofs_FlattenB Proofs_Flatten.
+
+Theorem flatten_refines_spec_partial : forall axis c vs,
+  Valid None c -> frag c = true -> noempty c = true -> to_list c = Ok vs ->
+  obs (flatten_model axis c) = flatten_spec axis (type_of c) vs.
+Proof. exact Proofs_Flatten.flatten_refines_spec_partial. Qed.
+Print Assumptions flatten_refines_spec_partial.
+
+Theorem flatten_axis1_refines_spec_partial : forall c vs,
+  Valid None c -> frag c = true -> noempty c = true -> to_list c = Ok vs ->
+  obs (flatten_model 1 c) =
+  (if is_plain_list (type_of c) then do ls <- mapM elems_of vs; Ok (concat ls) else Err EValue).
+Proof. exact Proofs_Flatten.flatten_axis1_refines_spec_partial. Qed.
+Print Assumptions flatten_axis1_refines_spec_partial.
+
+(* the invariant of the node AT the flattened level (at any depth): the returned content is the concatenation
+   of the lists (a missing list counts as empty), the returned inner offsets are the running lengths, so they cut
+   the content back into the per-element lists ([offsets_are_running_sums], Proofs_AtAxisOps.cut_concat);
+   [okA]: the node ending the chain of option / index wrappers is not an n-d leaf and not an EmptyArray *)
+Theorem flatten_level_invariant : forall c d vs,
+  0 <= d -> Valid None c -> okA c = true -> to_list c = Ok vs ->
+  if is_plain_list (type_of c) then
+    exists Ls fc, flat_p None c d (d + 1) = Ok (offsets_from 0 (map zlen Ls), fc) /\ mapM elems_of vs = Ok Ls /\
+                  to_list fc = Ok (concat Ls) /\ Valid None fc
+  else flat_p None c d (d + 1) = Err EValue.
+Proof. exact flat_level_spec. Qed.
+Print Assumptions flatten_level_invariant.
+
+Theorem inner_offsets_cut_back : forall (Ls : list (list value)),
+  cut (concat Ls) (offsets_from 0 (map zlen Ls)) = Ok Ls.
+Proof. exact (@cut_concat value). Qed.
+Print Assumptions inner_offsets_cut_back.
